@@ -99,7 +99,7 @@ func gen(t *rapid.T) Script {
 			op.Prio = rapid.IntRange(0, 3).Draw(t, "prio") == 0
 			op.Skip = rapid.SampledFrom([]int{0, 0, 0, 1, 3}).Draw(t, "skip")
 			op.Cont = rapid.SampledFrom([]int{0, 0, 0, 1, 2}).Draw(t, "cont")
-			op.Variant = rapid.SampledFrom([]string{"", "", "", "", "", "", "", "", "", "interrupted"}).Draw(t, "cv")
+			op.Variant = rapid.SampledFrom([]string{"", "", "", "", "", "", "", "", "", "interrupted", "interrupted-unknown"}).Draw(t, "cv")
 			if op.Cont == 0 {
 				op.Variant = ""
 			}
@@ -447,6 +447,7 @@ func exec(t *testing.T, s Script) (viol *vstat.Violation, classes map[string]boo
 		fields := func(path string) [][2]string {
 			return [][2]string{{":method", "POST"}, {":scheme", "https"}, {":authority", "x"}, {":path", path}}
 		}
+		interruptUnknown := false
 		writeBlock := func(sid uint32, block []byte, end bool, prio *rig.Prio, cont int, interrupted bool) {
 			var parts [][]byte
 			rest := block
@@ -463,7 +464,12 @@ func exec(t *testing.T, s Script) (viol *vstat.Violation, classes map[string]boo
 			peer.Fr.WriteHeaders(hp)
 			for i := 1; i < len(parts); i++ {
 				if interrupted && i == 1 {
-					peer.Fr.WritePing(false, [8]byte{7})
+					if interruptUnknown {
+						// a frame of a type nobody knows is a frame all the same (RFC 9113 6.10)
+						peer.Fr.WriteRawFrame(xhttp2.FrameType(0xab), 0, sid, []byte{1, 2, 3})
+					} else {
+						peer.Fr.WritePing(false, [8]byte{7})
+					}
 				}
 				peer.Fr.WriteContinuation(sid, i == len(parts)-1, parts[i])
 			}
@@ -522,7 +528,11 @@ func exec(t *testing.T, s Script) (viol *vstat.Violation, classes map[string]boo
 				smu.Lock()
 				byPath[st.path] = st
 				smu.Unlock()
-				interrupted := op.Variant == "interrupted" && op.Cont > 0
+				interrupted := (op.Variant == "interrupted" || op.Variant == "interrupted-unknown") && op.Cont > 0
+				interruptUnknown = op.Variant == "interrupted-unknown"
+				if interrupted && interruptUnknown {
+					classes["continuation-interrupted-by-a-frame-of-unknown-type"] = true
+				}
 				if interrupted {
 					ex = connErr("frame-inside-header-block", cProtocol)
 					st.noHandler = true
@@ -1020,7 +1030,7 @@ func names(m map[uint32]bool) []string {
 }
 
 func TestModel(t *testing.T) {
-	col.Mandatory("request-whose-block-starts-with-a-size-update-after-a-malformed-block", "concurrency-limit-reached", "continuation", "continuation-interrupted", "illegal-frame", "request-handled", "connection-error", "client-reset", "trailers", "padding-only-data", "malformed:uppercase", "malformed:missing-path",
+	col.Mandatory("request-whose-block-starts-with-a-size-update-after-a-malformed-block", "concurrency-limit-reached", "continuation", "continuation-interrupted", "continuation-interrupted-by-a-frame-of-unknown-type", "illegal-frame", "request-handled", "connection-error", "client-reset", "trailers", "padding-only-data", "malformed:uppercase", "malformed:missing-path",
 		"data-within-content-length", "data-after-padded-data-within-content-length", "data-beyond-content-length",
 		"frame-on-idle-even-stream-below-the-highest-client-stream", "connection-error-while-the-frame-writer-is-blocked")
 	vstat.Run(t, vstat.Spec[Script]{Col: col, Quick: 3000, Thorough: 100000, Gen: gen,
